@@ -26,7 +26,7 @@ MANIFEST = dict(
     design_ref="6 C10")
 
 OPS = {"start": "OStart", "stop": "OStop", "cancel": "OCancel", "stopstart": "OStopStart", "schedule": "OSched", "wait": "OSched"}
-MODES = {"unbounded": "(mkd false 0)", "blocking": "(mkd true 0)", "pool": "(mkd false 2)"}
+MODES = {"unbounded": "(mkd false 0)", "blocking": "(mkd true 0)", "pool": "(mkd false 2)", "blocking+limit": "(mkd true 2)"}
 
 
 def oracle(r):
